@@ -65,6 +65,24 @@ Theorem C11_never_passes_failing_run :
 Proof. exact never_passes_failing_run. Qed.
 Print Assumptions C11_never_passes_failing_run.
 
+(* the loop as a run configures it (fix D56: a run with --update-baseline ignores fail-fast):
+   same exit code as the full run for every flag set, and an updating run has the whole outcome
+   of the run without fail-fast -- results, exit code and the file it writes *)
+Theorem C11_exit_invariant_run_loop :
+  forall fl R R' dirs disk loaded,
+  load_for_run fl disk = Some loaded ->
+  run_loop fl loaded R R' ->
+  o_exit (check_step fl R' dirs disk) = o_exit (check_step fl R dirs disk).
+Proof. exact run_loop_exit. Qed.
+Print Assumptions C11_exit_invariant_run_loop.
+
+Theorem C11_update_run_same_outcome :
+  forall fl R R' dirs disk ob,
+  f_update fl <> None -> run_loop fl ob R R' ->
+  check_step fl R' dirs disk = check_step fl R dirs disk.
+Proof. exact run_loop_update_outcome. Qed.
+Print Assumptions C11_update_run_same_outcome.
+
 (* without fail-fast the loop is a map with an order-preserving collect: whatever the number of
    workers the result list is R, hence the whole outcome is identical *)
 Theorem C11_no_ff_results_identical :
@@ -112,3 +130,14 @@ Example C11_old_trigger_refuted :
   o_exit (check_step ff_fl [ga] [] gbl) = 0 /\ o_exit (check_step ff_fl [ga; gb; gc] [] gbl) = 1.
 Proof. vm_compute. repeat split; reflexivity. Qed.
 Print Assumptions C11_old_trigger_refuted.
+
+(* a stale entry of a deleted file under strict ratchet and fail-fast: nothing stops the loop, the
+   deleted path counts as evaluated (a directory scan saw it gone: it arrives in [dirs]), exit 1
+   with and without fail-fast *)
+Example C11_stale_entry_under_fail_fast :
+  let bl := Some [([111], EContent 30 [])] in
+  let fl := mkFlags true None (Some RStrict) None false false true in
+  ff_seq (view bl) [gc] = [gc] /\ o_exit (check_step fl [gc] [[111]] bl) = 1 /\
+  o_exit (check_step (mkFlags true None (Some RStrict) None false false false) [gc] [[111]] bl) = 1.
+Proof. vm_compute. repeat split; reflexivity. Qed.
+Print Assumptions C11_stale_entry_under_fail_fast.
